@@ -27,3 +27,23 @@ prop('C09',
      level_note='Trusted: Lean kernel, standard axioms, extractor + harness. Modelled not verified: the grammar front end that calls _generate_repeats, Python re for the terminal side.',
      technique='Lean 4 theorem (induction over factor lists) about an executable mirror of _generate_repeats + structural correspondence with the real helper rules',
      design_ref='DESIGN.md §5 C09')
+
+prop('C06',
+     modules=['LarkVerif.LineCounter', 'LarkVerif.Props.C06'],
+     theorems=['Props.C06.token_stamp_exact', 'Props.C06.lexer_loop_exact', 'Props.C06.dynamic_stamp_exact', 'Props.C06.window_start_exact',
+               'LCProto.feed_exact', 'LCProto.advanceTo_exact', 'LCProto.resume_exact', 'LCProto.dynAt_eq_coord'],
+     fingerprints=['lark/lexer.py:LineCounter.feed', 'lark/lexer.py:LineCounter.advance_to', 'lark/lexer.py:LineCounter.from_text_slice', 'lark/lexer.py:BasicLexer.next_token',
+                   'lark/lexer.py:BasicLexer.__init__', 'lark/parsers/xearley.py:Parser._parse', 'lark/parse_tree_builder.py:PropagatePositions.__call__'],
+     rule='(a) the real LineCounter under random feed(token, flag)/advance_to sequences vs the Lean feed/advanceTo; (b) random terminal sets drawn from a table of regex spellings '
+          '(literals, classes, negated classes, \\W \\D \\s, ranges, octal/hex/unicode escapes, inline and trailing flags) x random texts with newlines x '
+          '{lalr/basic, lalr/contextual, earley/basic, earley/dynamic, earley/dynamic_complete} x str/bytes: every token of every result (and of Lark.lex) must satisfy '
+          'text[start:end]==token and carry the stamp the Lean model computes for its span (proved equal to the source coordinates); the hypothesis of the theorem '
+          '(terminals outside newline_types are newline-free strings) is evaluated on every generated lexer. Non-trivial = the text contains a newline; distinct by canonical hash.',
+     not_proved=['tree meta (propagate_positions): checked by the C03 harness against spans of the raw derivation; no Lean theorem yet'],
+     assumptions=['str.count / str.rindex behave as specified', 'a PatternStr without a newline cannot match one'],
+     level_text='Theorems token_stamp_exact / lexer_loop_exact / dynamic_stamp_exact: for every text and tiling the stamps written by the (modelled) lexer loop are exactly the 1-based '
+                'source coordinates, provided terminals outside newline_types cannot match a newline. The model functions are run against the real LineCounter and against every token the real '
+                'lexers produce on random terminal sets and texts; the hypothesis is evaluated on the real lexer objects.',
+     level_note='Trusted: Lean kernel, standard axioms, harness. Modelled not verified: Python re (which text a terminal matches), str.count/rindex.',
+     technique='Lean 4 invariant proof over the lexer loop (LineCounter) + differential correspondence on real tokens',
+     design_ref='DESIGN.md §5 C06')
